@@ -6,6 +6,10 @@ PROP = dict(
         dict(name="e3", pkg=".", test="TestVerifC17E3", files=["mc/c17/e3/*.go"], parts=["e3-datagram-queue"],
              libs=["explore", "canon", "sched", "vsync"], shards=1, gomaxprocs=0, env={},
              rewrite={"datagram_queue.go": [('"sync"', 'sync "github.com/refraction-networking/uquic/internal/verifmc/vsync"')]}),
+        dict(name="e3s", pkg=".", test="TestVerifC17E3S", files=["mc/c17/e3s/*.go"], parts=["e3-stream-teardown"],
+             libs=["explore", "canon", "sched", "vsync"], shards=1, gomaxprocs=0, env={},
+             rewrite={f: [('"sync"', 'sync "github.com/refraction-networking/uquic/internal/verifmc/vsync"')]
+                      for f in ("stream.go", "send_stream.go", "receive_stream.go", "streams_map.go", "streams_map_incoming.go", "streams_map_outgoing.go", "internal/flowcontrol/base_flow_controller.go")}),
         dict(name="race", pkg=".", test="TestVerifC17Race", files=["mc/c17/*.go", "mc/c17/race/*.go"], parts=["close-fanout-race"],
              race=True, shards=4, gomaxprocs=4, env={"GORACE": "halt_on_error=1", "GODEBUG": "randseednop=0"}),
     ],
